@@ -47,6 +47,8 @@ def obsOpOf (j : Json) : P ObsOp := do
   | [.str "p_wb"] => pure .predSetWheelbase
   | [.str "p_asg"] => pure .predSetAssignment
   | [.str "p_tr", v] => pure (.predTranslateRotate (← asNat v))
+  | [.str "t_tr", v] => pure (.trajTranslateRotate (← asNat v))
+  | [.str "t_app", v] => pure (.trajAppendState (← asNat v))
   | [.str "q_occ", t] => pure (.qOcc (← asInt t))
   | [.str "q_state", t] => pure (.qState (← asInt t))
   | [.str "q_pocc", t] => pure (.qPredOcc (← asInt t))
@@ -90,6 +92,8 @@ def netOpOf (j : Json) : P NetOp := do
   | [.str "remove", i, r] => pure (.remove (← asNat i) (← asBool r))
   | [.str "tr", v] => pure (.translateRotate (← asNat v))
   | [.str "to2d", v] => pure (.convert2d (← asNat v))
+  | [.str "l_tr", i, v] => pure (.lanTranslateRotate (← asNat i) (← asNat v))
+  | [.str "l_to2d", i, v] => pure (.lanConvert2d (← asNat i) (← asNat v))
   | [.str "deepcopy"] => pure .deepcopy
   | [.str "pickle"] => pure .pickle
   | [.str "q_find"] => pure .qFind
@@ -134,7 +138,7 @@ def cycOpOf (j : Json) : P CycOp := do
 def rowJ (r : Row) : Json :=
   Json.mkObj [("item", Json.str (reprStr r.item)), ("mut", Json.str (reprStr r.mutator)),
               ("writes", Json.arr (r.writes.map fun f => Json.str (reprStr f)).toArray),
-              ("action", Json.str (reprStr r.action)), ("sound", Json.bool r.sound)]
+              ("action", Json.str (reprStr r.action)), ("sound", Json.bool r.sound), ("touches", Json.bool r.touches)]
 
 def handle (op : String) (a : Json) : P Json := do
   match op with
@@ -161,7 +165,8 @@ def handle (op : String) (a : Json) : P Json := do
     let out := (cycRun ⟨c, none⟩ ops).1
     pure <| Json.arr (out.map fun rs => Json.arr (rs.map (resJ natJ)).toArray).toArray
   | "table" =>
-    pure <| Json.mkObj [("rows", Json.arr (table.map rowJ).toArray), ("sound", Json.bool tableSound)]
+    pure <| Json.mkObj [("rows", Json.arr (table.map rowJ).toArray),
+      ("unsound", Json.arr (unsoundPairs.map fun p => Json.arr #[Json.str (reprStr p.1), Json.str (reprStr p.2)]).toArray)]
   | _ => throw s!"C11: unknown op {op}"
 
 end CR.Drv.C11
